@@ -21,7 +21,7 @@ def run(P, rep, tier):
         'tolerance idioms (blank lines skipped, integer conversion covers -?[0-9]+).')
     rep.undecided = 'equality of yielded content/options with the specification\'s reading on concrete files'
     rep.trusted_base += ['folded option choice sets of options.py', 'summaries of utils/text.py']
-    R, res = rr.analyse(P)
+    R, res = rr.analyse(P, tier)
     rep.analysed(*R.funcs)
     r1 = rep.rule('C03-R1', 'rejection catalogue: accepted value sets equal the specification\'s; failures raise DiffXParseError', reference=12)
     valid_versions = P.fold_class_attr(P.cls('pydiffx.options', 'SpecVersion'), 'VALID_VALUES')
